@@ -86,6 +86,19 @@ theorem record_truncates_redo (now : Int) (ev : Event) (s : State) (hw : WF s) :
 /-- The merge window of the statement: two seconds. -/
 theorem window_is_two : Generated.mergeWindow = 2 := by decide
 
+/-- The size of the library's set-message buffer (`static char tmp[N]` and the length handed
+    to `rtosc_amessage` in `rewind`/`replay`), regenerated from the source on every run, is
+    256: the domain `AddrsFit` of the theorems cannot shrink (or move) without this theorem
+    failing. -/
+theorem tmpSize_is_256 : Generated.tmpSize = 256 := by decide
+
+/-- The domain hypothesis `AddrsFit` / `OpsFit` in plain words: an address yields a
+    set-message that fits the buffer iff it is shorter than 248 bytes (the bound used by the
+    generator, the harness and the reference oracle of the check). -/
+theorem fits_iff_short (a : Bytes) : fits a = true ↔ a.length < 248 := by
+  simp only [fits, setMsgLen, pad4, tmpSize_is_256, decide_eq_true_eq]
+  omega
+
 /-- **merge_within_window** — "events for the same address recorded within two seconds merge
     into one (first old value, last new value)": if the most recent applied event for the
     address (`e`, recorded or last extended at `t`; nothing for that address after it) is at
@@ -269,6 +282,13 @@ example : recordEvent 4 ⟨[47, 97], 105, 2, 3⟩ ⟨[(2, ⟨[47, 97], 105, 0, 2
 /-- `Inv` is satisfiable with a non-empty history on both sides of the cursor. -/
 example : Inv s3 (fun a => if a = [47, 97] then 1 else if a = [47, 98] then 5 else 0) := by
   simp [Inv, applied, undone, s3, RChain, Chain, Store.set, eA1, eB, eA2]
+/-- both sides of the domain bound are inhabited: 247 bytes fit, 248 do not. -/
+example : fits (List.replicate 247 97) = true ∧ fits (List.replicate 248 97) = false := by
+  constructor
+  · exact (fits_iff_short _).mpr (by rw [List.length_replicate]; omega)
+  · cases h : fits (List.replicate 248 97) with
+    | false => rfl
+    | true => exact absurd ((fits_iff_short _).mp h) (by rw [List.length_replicate]; omega)
 example : OpsFit [.set [47, 97] 105 1, .tick 1, .seek (-1), .seek 1] := by
   intro o ho; simp at ho; rcases ho with rfl | rfl | rfl | rfl <;> simp [OpFit] <;> decide
 
